@@ -73,7 +73,7 @@ pub struct ShardResult {
 }
 
 fn law_static(s: &str) -> &'static str {
-    for l in ["E1", "E2", "E3", "E4", "D1", "D2", "D3"] {
+    for l in ["E1", "E2", "E3", "E4", "D0", "D1", "D2", "D3"] {
         if l == s {
             return l;
         }
